@@ -1346,3 +1346,13 @@ M("C05-benign-accessor-collision-find", "C05", "src/interrogate/interrogateBuild
   "  if (scope != nullptr && scope->_functions.count(fname) != 0) {\n    return 0;\n  }\n\n  ostringstream desc;\n  desc << \"getter for \";",
   "  if (scope != nullptr && scope->_functions.find(fname) != scope->_functions.end()) {\n    return 0;\n  }\n\n  ostringstream desc;\n  desc << \"getter for \";",
   benign=True)
+
+# ---------------------------------------------------------------- R02.8 (F-C02b)
+M("C02-make-seq-tuple-unchecked", "C02", "src/interrogate/interfaceMakerPythonNative.cxx",
+  "    \"  PyObject *tuple = PyTuple_New(count);\\n\"\n    \"  if (tuple == nullptr) {\\n\"\n    \"    return nullptr;\\n\"\n    \"  }\\n\"\n",
+  "    \"  PyObject *tuple = PyTuple_New(count);\\n\"\n",
+  expect="R02.8|write_make_seq|tuple=New(count)|tested-before-use")
+M("C02-benign-make-seq-tuple-not-form", "C02", "src/interrogate/interfaceMakerPythonNative.cxx",
+  "    \"  if (tuple == nullptr) {\\n\"\n    \"    return nullptr;\\n\"\n    \"  }\\n\"\n",
+  "    \"  if (!tuple) {\\n\"\n    \"    return nullptr;\\n\"\n    \"  }\\n\"\n",
+  benign=True)
